@@ -266,16 +266,17 @@ def interactive_world(r):
     T = gen.TY
     h, w = r.choice([(1, 4), (1, 5), (2, 4), (3, 3), (3, 4), (4, 4), (2, 5)])
     col = r.choice(gen.COLORS[1:])
+    tcol = col if r.random() < 0.7 else 0          # telepods may be colourless
     pool = [gen.FLOOR] * 5 + [(T['Door'], 1, col, None), (T['Door'], 2, col, None), (T['Door'], 0, col, None), (T['Key'], 0, col, None),
                               (T['Box'], 0, 0, (T['Key'], 0, col, None)), (T['Box'], 0, 0, gen.FLOOR), (T['Box'], 0, 0, (T['Door'], r.choice([1, 2]), col, None)), gen.WALL, (T['MovingObstacle'], 0, 0, None),
-                              (T['Telepod'], 0, col, None), (T['Exit'], 0, 0, None), (T['Exit'], 0, r.choice(gen.COLORS[1:]), None), (T['Beacon'], 0, r.choice(gen.COLORS[1:]), None)]
+                              (T['Telepod'], 0, tcol, None), (T['Exit'], 0, 0, None), (T['Exit'], 0, r.choice(gen.COLORS[1:]), None), (T['Beacon'], 0, r.choice(gen.COLORS[1:]), None)]
     g = tuple(tuple(r.choice(pool) for _ in range(w)) for _ in range(h))
     if r.random() < 0.3:
         # telepods come in groups of one colour (a single one never teleports): two or three of them, among doors / boxes / keys
         cells = [(y, x) for y in range(h) for x in range(w)]
         r.shuffle(cells)
         for c in cells[:r.choice([2, 2, 3])]:
-            g = gen.set_cell(g, c, (T['Telepod'], 0, col, None))
+            g = gen.set_cell(g, c, (T['Telepod'], 0, tcol, None))
     free = [(y, x) for y in range(h) for x in range(w) if g[y][x][0] in (T['Floor'], T['Exit'], T['Telepod']) or g[y][x] == (T['Door'], 0, col, None)]
     if not free:
         g = gen.set_cell(g, (0, 0), gen.FLOOR)
@@ -309,8 +310,10 @@ def run_histories(ctx, n, step_oracle, length=(3, 10)):
         cs = interactive_world(r)
         s = wire.mkstate(cs, share=r.random() < 0.3)      # one prototype object in several cells, as often as not
         hist = []
-        for _k in range(r.randint(*length)):
-            act = r.choice([0, 0, 0, 0, 6, 6, 6, 7, 7, 1, 2, 3, 4, 5])
+        # one history in three starts with the textbook door sequence: walk into what is in front (bump), ACTUATE, walk in
+        script = [0, 6, 0] if r.random() < 0.35 else []
+        for _k in range(max(r.randint(*length), len(script))):
+            act = script.pop(0) if script else r.choice([0, 0, 0, 0, 6, 6, 6, 7, 7, 1, 2, 3, 4, 5])
             if r.random() < 0.12:
                 # between two steps the world is edited through the public Grid interface (two cells swapped, a cell assigned): whatever
                 # the library remembers about a grid must follow
